@@ -1,6 +1,7 @@
 package main
 
 import (
+	"go/token"
 	"fmt"
 	"go/types"
 
@@ -217,6 +218,42 @@ func resultFacts(g *ssa.Function, idx int) []func(fi *funcInfo, a string, call *
 			make:  func(fi *funcInfo, a string, call *ssa.Call) Lin { return fi.lenOf(call.Call.Args[j]).sub(atom(a)) },
 		})
 	}
+	// r <= K for the constants the callee compares with (`n < 0 || n > 100 → error`)
+	for _, k := range compareConsts(g, 6) {
+		k := k
+		cands = append(cands, cand{
+			holds: func(t Lin) Lin { return konst(k).sub(t) },
+			make:  func(fi *funcInfo, a string, call *ssa.Call) Lin { return konst(k).sub(atom(a)) },
+		})
+	}
+	// r <= p for integer parameters p, r <= x.f for integer fields of objects passed by pointer
+	for j, pj := range g.Params {
+		j := j
+		if _, _, isInt := isIntType(pj.Type()); isInt {
+			tp := gfi.term(pj)
+			cands = append(cands, cand{
+				holds: func(t Lin) Lin { return tp.sub(t) },
+				make:  func(fi *funcInfo, a string, call *ssa.Call) Lin { return fi.term(call.Call.Args[j]).sub(atom(a)) },
+			})
+		}
+		if _, isPtr := pj.Type().Underlying().(*types.Pointer); isPtr {
+			base := gfi.vname(canonBase(pj))
+			for f := range gfi.intFields {
+				f := f
+				entry := atom(fmt.Sprintf("val(%s.%s@entry)", base, f))
+				cands = append(cands, cand{
+					holds: func(t Lin) Lin { return entry.sub(t) },
+					make: func(fi *funcInfo, a string, call *ssa.Call) Lin {
+						v, ok := fi.fieldValAtCall(call, call.Call.Args[j], f)
+						if !ok {
+							return konst(0) // no information: the trivial fact 0 >= 0
+						}
+						return v.sub(atom(a))
+					},
+				})
+			}
+		}
+	}
 	var out []func(fi *funcInfo, a string, call *ssa.Call) Lin
 	for _, cd := range cands {
 		ok := true
@@ -302,4 +339,193 @@ func (fi *funcInfo) proveJoinEdge(goals []Lin, have []Lin, b *ssa.BasicBlock, de
 		}
 	}
 	return true
+}
+
+// fieldValAtCall: the value of integer field f of the object arg points to, as the caller knows
+// it right before the call instruction.
+func (fi *funcInfo) fieldValAtCall(call *ssa.Call, arg ssa.Value, f string) (Lin, bool) {
+	if !fi.intFields[f] || fi.callEpoch == nil {
+		return Lin{}, false
+	}
+	ep, ok := fi.callEpoch[call][f]
+	if !ok {
+		return Lin{}, false
+	}
+	base := fi.vname(canonBase(arg))
+	if r, ok := fi.rel[ep+"|"+f+"|"+base]; ok {
+		return r, true
+	}
+	va := fmt.Sprintf("val(%s.%s@%s)", base, f, ep)
+	if fa := fieldAddrTypeOf(arg, f); fa != nil {
+		valAtomType[va] = fa
+	}
+	return atom(va), true
+}
+
+// fieldAddrTypeOf: the type of field f (fact-engine key) of the struct arg points to.
+func fieldAddrTypeOf(arg ssa.Value, f string) types.Type {
+	pt, ok := arg.Type().Underlying().(*types.Pointer)
+	if !ok {
+		return nil
+	}
+	st, ok := pt.Elem().Underlying().(*types.Struct)
+	if !ok {
+		return nil
+	}
+	for i := 0; i < st.NumFields(); i++ {
+		if types.TypeString(pt.Elem(), nil)+"."+st.Field(i).Name() == f {
+			return st.Field(i).Type()
+		}
+	}
+	return nil
+}
+
+// compareConsts: the integer constants the function compares integer values with (at most max).
+func compareConsts(g *ssa.Function, max int) []int64 {
+	seen := map[int64]bool{}
+	var out []int64
+	for _, b := range g.Blocks {
+		for _, ins := range b.Instrs {
+			bo, ok := ins.(*ssa.BinOp)
+			if !ok {
+				continue
+			}
+			switch bo.Op {
+			case token.LSS, token.LEQ, token.GTR, token.GEQ, token.EQL, token.NEQ:
+			default:
+				continue
+			}
+			for _, o := range []ssa.Value{bo.X, bo.Y} {
+				if k, ok := constIntVal(o); ok && !seen[k] && k > -1<<40 && k < 1<<40 {
+					seen[k] = true
+					out = append(out, k)
+				}
+			}
+		}
+	}
+	if len(out) > max {
+		return nil
+	}
+	return out
+}
+
+// ---- guard summaries: what a module function that returns an error has checked about its
+// integer parameters whenever the error is nil (`if err := checkSize(op, size, limit); err != nil
+// { return err }` leaves 0 <= size <= limit behind)
+
+type guardFact func(cfi *funcInfo, call ssa.CallInstruction) (Lin, bool)
+
+var guardSummaryCache = map[*ssa.Function][]guardFact{}
+var guardSummaryBusy = map[*ssa.Function]bool{}
+
+func guardSummary(g *ssa.Function) []guardFact {
+	if r, ok := guardSummaryCache[g]; ok {
+		return r
+	}
+	if guardSummaryBusy[g] || g == nil || len(g.Blocks) == 0 || !inMod(g) {
+		return nil
+	}
+	res := g.Signature.Results()
+	if res.Len() == 0 || !isErrorType(res.At(res.Len()-1).Type()) {
+		guardSummaryCache[g] = nil
+		return nil
+	}
+	errIdx := res.Len() - 1
+	guardSummaryBusy[g] = true
+	defer delete(guardSummaryBusy, g)
+	gfi := newFuncInfo(g)
+	type cand struct {
+		callee Lin
+		caller guardFact
+	}
+	var cands []cand
+	var ints []int
+	for i, p := range g.Params {
+		if _, _, isInt := isIntType(p.Type()); isInt {
+			ints = append(ints, i)
+		}
+	}
+	if len(ints) == 0 {
+		guardSummaryCache[g] = nil
+		return nil
+	}
+	arg := func(i int) func(cfi *funcInfo, call ssa.CallInstruction) Lin {
+		return func(cfi *funcInfo, call ssa.CallInstruction) Lin { return cfi.term(call.Common().Args[i]) }
+	}
+	for _, i := range ints {
+		i := i
+		ti := gfi.term(g.Params[i])
+		cands = append(cands, cand{ti, func(cfi *funcInfo, call ssa.CallInstruction) (Lin, bool) { return arg(i)(cfi, call), true }})
+		for _, k := range compareConsts(g, 6) {
+			k := k
+			cands = append(cands, cand{konst(k).sub(ti), func(cfi *funcInfo, call ssa.CallInstruction) (Lin, bool) { return konst(k).sub(arg(i)(cfi, call)), true }})
+		}
+		for _, j := range ints {
+			if j == i {
+				continue
+			}
+			j := j
+			tj := gfi.term(g.Params[j])
+			cands = append(cands, cand{tj.sub(ti), func(cfi *funcInfo, call ssa.CallInstruction) (Lin, bool) {
+				return arg(j)(cfi, call).sub(arg(i)(cfi, call)), true
+			}})
+		}
+	}
+	var out []guardFact
+	for _, cd := range cands {
+		ok, n := true, 0
+		for _, r := range returns(g) {
+			if len(r.Results) <= errIdx {
+				ok = false
+				break
+			}
+			ev := r.Results[errIdx]
+			if definitelyNonNilError(ev) {
+				continue
+			}
+			n++
+			if !gfi.prove([]Lin{cd.callee}, gfi.factsAt(r.Block(), r), 1) {
+				ok = false
+				break
+			}
+		}
+		if ok && n > 0 {
+			out = append(out, cd.caller)
+		}
+	}
+	guardSummaryCache[g] = out
+	return out
+}
+
+// definitelyNonNilError: the returned error value is a freshly made error (a call of a function
+// that constructs one, or a boxed pointer to a composite literal).
+func definitelyNonNilError(v ssa.Value) bool {
+	switch x := origin(v).(type) {
+	case *ssa.MakeInterface:
+		switch y := origin(x.X).(type) {
+		case *ssa.Alloc:
+			return true
+		case *ssa.Call:
+			_ = y
+			return false
+		}
+	case *ssa.Call:
+		if sc := x.Call.StaticCallee(); sc != nil {
+			n := calleeName(sc)
+			if n == "fmt.Errorf" || n == "errors.New" {
+				return true
+			}
+			if inMod(sc) && len(sc.Blocks) > 0 {
+				// a module constructor all of whose returns are such values
+				all := true
+				for _, r := range returns(sc) {
+					if len(r.Results) == 0 || !definitelyNonNilError(r.Results[len(r.Results)-1]) {
+						all = false
+					}
+				}
+				return all && len(returns(sc)) > 0
+			}
+		}
+	}
+	return false
 }
